@@ -57,14 +57,14 @@ def witness_fails(binary, finding, log):
     return ok
 
 
-def search_failing_input(binary, prop, kf, seed, log, budget=1500):
+def search_failing_input(binary, prop, kf, seed, log, budget=12000):
     """random small histories that respect the adoption precondition; returns the first that the real crate
     gets wrong (shortest of those found), or None"""
     import explore
     rng = random.Random(1000 + seed)
     hists = []
     for i in range(budget):
-        hists.append(explore.gen(rng, rng.randint(1, 3), rng.randint(2, 12), stale=False, loopback=(i % 3 == 0), unrecorded=(i % 2 == 0)))
+        hists.append(explore.gen(rng, rng.randint(1, 4 if i % 4 == 0 else 3), rng.randint(2, 16 if i % 4 == 0 else 12), stale=False, loopback=(i % 3 == 0), unrecorded=(i % 2 == 0)))
     from concurrent.futures import ThreadPoolExecutor
     bad = []
     with ThreadPoolExecutor(16) as ex:
